@@ -10,6 +10,13 @@
    by the environment; other map iterations use list order (the correspondence compares the
    observables of one release as a multiset).
 
+   Writer calls are NOT atomic: a call on the subscriber's writer is an interval [OW s c] (the call
+   is entered) ... [OWE s c] (it returns), with a parking point of the scheduler inside ([IYield PWr],
+   owned by the harness' writer).  writeMu of subscription s is explicit state ([wlk]): every W_s
+   region (writeError, the Write/Flush region of executeSubscriptionUpdate, complete()/error(),
+   sendHeartbeat, and done() = close(completed_s)) blocks while another one holds it, and a writer
+   region keeps it from the entry of its first call to the return of its last one ([IWCont]).
+
    [variant] selects the repaired code (main model, all three flags true) or the historical
    pre-repair transitions (only used for the *_refuted theorems). *)
 From Coq Require Import List Bool Arith PeanoNat.
@@ -28,8 +35,14 @@ Inductive wcall :=
 | CWrite (e : ev) | CWriteFail (e : ev) | CFlush | CFlushFail
 | CComplete | CError | CHeartbeat | CHeartbeatFail | CWriteError.
 
+(* the second call of a two-call writeMu region: Flush after Write, WriteError after a failed Write *)
+Inductive wnext := NFlush | NFlushFail | NWriteError.
+Definition wn_call (n : wnext) : wcall :=
+  match n with NFlush => CFlush | NFlushFail => CFlushFail | NWriteError => CWriteError end.
+
 Inductive obs :=
-| OW (s : sid) (c : wcall)          (* a call on the subscriber's writer (or AsyncErrorWriter on it) *)
+| OW (s : sid) (c : wcall)          (* a call on the subscriber's writer (or AsyncErrorWriter on it) is entered *)
+| OWE (s : sid) (c : wcall)         (* that call returns *)
 | OClosed (s : sid)                 (* close(completed_s) *)
 | OStart (t : tid) (k : key)        (* Source.Start called *)
 | OCancel (t : tid)                 (* trigger ctx cancel func called *)
@@ -47,7 +60,8 @@ Inductive tname := TCl (n : nat) | TSt (s : sid) | TSrc (n : nat) | TCh (s : sid
 Inductive point :=
 | PAddR | PUnsubR | PRmClientR | PShutR | PHbR | PInit0 | PInit1 | PDtuR | PUtR
 | PUpdU | PUpdsubU | PCmplU | PErrU | PDoneU | PCloseU
-| PX0 | PW | PCmplY | PErrY | PExtHook | PExtStart.
+| PX0 | PW | PCmplY | PErrY | PExtHook | PExtStart
+| PWr.                              (* inside a writer call (harness-owned parking point) *)
 
 Inductive cek := KComplete | KError.
 
@@ -66,7 +80,7 @@ Inductive instr :=
 | ICancelCtx (s : sid)
 | IShutCancel
 | IShutR
-| IClose (s : sid)
+| ICloseLoop (l : list sid)          (* closeSubs: done() on each of l; the slice was filled in Go map iteration order (a pick per element) *)
 | ICancel (t : tid)
 (* start goroutine / hook runner *)
 | IHookJ (s : sid) (t : tid)
@@ -74,6 +88,7 @@ Inductive instr :=
 | IStart (s : sid) (t : tid)
 | IFailSnap (t : tid)
 | IWriteErr (s : sid)
+| IErrLoop (l : list sid)            (* writeError to each of l, in Go map iteration order (a pick per element) *)
 | IInit (t : tid)
 | IInitOldStore (t : tid)           (* historical *)
 | IDoneR (t : tid)
@@ -98,7 +113,12 @@ Inductive instr :=
 | IHbTrigs (ks : list key) (recent : list sid)
 | IHbSnap (t : tid) (recent : list sid)
 | IHbSubs (l : list sid)
-| IHbSend (s : sid).
+| IHbTest (s : sid)                 (* executeSubscriptionHeartbeat: the context tests, outside writeMu *)
+| IHbSend (s : sid)                 (* sendHeartbeat: writeMu, removed test, writer.Heartbeat *)
+(* rest of a writeMu region of s after the entry of call c: c returns, then the call [more] (if any)
+   is made (parking inside it too), then writeMu is released and, if [u], the caller goes on to
+   UnsubscribeSubscription(s) *)
+| IWCont (s : sid) (c : wcall) (more : option wnext) (u : bool).
 
 Inductive ext := XNone | XOk | XFail | XEmit (e : ev) | XPick (n : nat).
 
@@ -132,7 +152,8 @@ Record state := {
   ntrig : nat;
   trigs : tid -> trg;
   threads : list (tname * list instr);
-  log : list obs }.                (* newest first *)
+  log : list obs;                  (* newest first *)
+  wlk : list sid }.                (* subscriptions whose writeMu is held by a writer region in progress *)
 
 Definition sub0 : sub :=
   {| s_key := 0; s_tid := 0; s_conn := 0; s_hb := false; s_removed := false; s_closed := 0; s_ctxc := false |}.
@@ -141,7 +162,7 @@ Definition trg0 : trg :=
      t_ulock := false; t_wg := []; t_started := 0 |}.
 Definition init : state :=
   {| shut := false; rctx := false; reg := []; byid := []; allsubs := []; subs := fun _ => sub0;
-     ntrig := 0; trigs := fun _ => trg0; threads := []; log := [] |}.
+     ntrig := 0; trigs := fun _ => trg0; threads := []; log := []; wlk := [] |}.
 
 (* ---- small helpers ---- *)
 Definition tname_eqb (a b : tname) : bool :=
@@ -177,25 +198,29 @@ Definition upd {A} (f : nat -> A) (x : nat) (v : A) : nat -> A := fun y => if y 
 (* state setters *)
 Definition st_log (st : state) (o : list obs) : state :=
   {| shut := shut st; rctx := rctx st; reg := reg st; byid := byid st; allsubs := allsubs st; subs := subs st;
-     ntrig := ntrig st; trigs := trigs st; threads := threads st; log := o ++ log st |}.
+     ntrig := ntrig st; trigs := trigs st; threads := threads st; log := o ++ log st; wlk := wlk st |}.
 Definition st_sub (st : state) (s : sid) (v : sub) : state :=
   {| shut := shut st; rctx := rctx st; reg := reg st; byid := byid st; allsubs := allsubs st; subs := upd (subs st) s v;
-     ntrig := ntrig st; trigs := trigs st; threads := threads st; log := log st |}.
+     ntrig := ntrig st; trigs := trigs st; threads := threads st; log := log st; wlk := wlk st |}.
 Definition st_trg (st : state) (t : tid) (v : trg) : state :=
   {| shut := shut st; rctx := rctx st; reg := reg st; byid := byid st; allsubs := allsubs st; subs := subs st;
-     ntrig := ntrig st; trigs := upd (trigs st) t v; threads := threads st; log := log st |}.
+     ntrig := ntrig st; trigs := upd (trigs st) t v; threads := threads st; log := log st; wlk := wlk st |}.
 Definition st_reg (st : state) (r : list (key * tid)) : state :=
   {| shut := shut st; rctx := rctx st; reg := r; byid := byid st; allsubs := allsubs st; subs := subs st;
-     ntrig := ntrig st; trigs := trigs st; threads := threads st; log := log st |}.
+     ntrig := ntrig st; trigs := trigs st; threads := threads st; log := log st; wlk := wlk st |}.
 Definition st_byid (st : state) (l : list sid) : state :=
   {| shut := shut st; rctx := rctx st; reg := reg st; byid := l; allsubs := allsubs st; subs := subs st;
-     ntrig := ntrig st; trigs := trigs st; threads := threads st; log := log st |}.
+     ntrig := ntrig st; trigs := trigs st; threads := threads st; log := log st; wlk := wlk st |}.
 Definition st_threads (st : state) (l : list (tname * list instr)) : state :=
   {| shut := shut st; rctx := rctx st; reg := reg st; byid := byid st; allsubs := allsubs st; subs := subs st;
-     ntrig := ntrig st; trigs := trigs st; threads := l; log := log st |}.
+     ntrig := ntrig st; trigs := trigs st; threads := l; log := log st; wlk := wlk st |}.
 Definition st_flags (st : state) (sh rc : bool) : state :=
   {| shut := sh; rctx := rc; reg := reg st; byid := byid st; allsubs := allsubs st; subs := subs st;
-     ntrig := ntrig st; trigs := trigs st; threads := threads st; log := log st |}.
+     ntrig := ntrig st; trigs := trigs st; threads := threads st; log := log st; wlk := wlk st |}.
+
+Definition st_wl (st : state) (l : list sid) : state :=
+  {| shut := shut st; rctx := rctx st; reg := reg st; byid := byid st; allsubs := allsubs st; subs := subs st;
+     ntrig := ntrig st; trigs := trigs st; threads := threads st; log := log st; wlk := l |}.
 
 Definition sub_set_removed (v : sub) : sub :=
   {| s_key := s_key v; s_tid := s_tid v; s_conn := s_conn v; s_hb := s_hb v;
@@ -298,7 +323,8 @@ Fixpoint detach_many (st : state) (l : list tid) : state * rmres :=
     (st2, rm_add r1 r2)
   end.
 
-Definition after_remove (r : rmres) : list instr := map IClose (rr_close r) ++ map ICancel (rr_cancel r).
+Definition closel (l : list sid) : list (list sid) := match l with [] => [] | _ => [l] end.
+Definition after_remove (r : rmres) : list instr := map ICloseLoop (closel (rr_close r)) ++ map ICancel (rr_cancel r).
 Definition dec_obs (r : rmres) : list obs :=
   OSubDec (rr_n r) :: (if rr_dec r =? 0 then [] else [OTrigDec (rr_dec r)]).
 
@@ -334,6 +360,12 @@ Definition cecall (c : cek) : wcall := match c with KComplete => CComplete | KEr
 Definition celoop (c : cek) (l : list sid) : list instr := match l with [] => [] | _ => [ICELoop c l] end.
 Definition hbtrigs (ks : list key) (recent : list sid) : list instr := match ks with [] => [] | _ => [IHbTrigs ks recent] end.
 Definition hbsubs (l : list sid) : list instr := match l with [] => [] | _ => [IHbSubs l] end.
+Definition errloop (l : list sid) : list instr := match l with [] => [] | _ => [IErrLoop l] end.
+
+(* writeMu of s: held / acquire + enter call c / what follows the entry of a call *)
+Definition wheld (st : state) (s : sid) : bool := mem s (wlk st).
+Definition wcont (s : sid) (c : wcall) (more : option wnext) (u : bool) : list instr := [IYield PWr; IWCont s c more u].
+Definition wenter (st : state) (s : sid) (c : wcall) : state := st_log (st_wl st (s :: wlk st)) [OW s c].
 
 Section Exec.
   Variable v : variant.
@@ -375,7 +407,7 @@ Section Exec.
           let st2 := st_trg st1 t (trg_set_subs (trigs st1 t) (t_subs (trigs st1 t) ++ [s])) in
           let st3 := {| shut := shut st2; rctx := rctx st2; reg := reg st2; byid := byid st2 ++ [s];
                         allsubs := s :: allsubs st2; subs := subs st2; ntrig := ntrig st2; trigs := trigs st2;
-                        threads := threads st2; log := log st2 |} in
+                        threads := threads st2; log := log st2; wlk := wlk st2 |} in
           Some (emit st3 [OSubInc 1; GReg s t], after, [(TSt s, [IYield PExtHook; IHookJ s t])])
         | None =>
           let t := ntrig st in
@@ -384,7 +416,7 @@ Section Exec.
                        t_ulock := false; t_wg := []; t_started := 0 |} in
           let st3 := {| shut := shut st; rctx := rctx st; reg := reg st ++ [(k, t)]; byid := byid st ++ [s];
                         allsubs := s :: allsubs st; subs := upd (subs st) s sb; ntrig := S t;
-                        trigs := upd (trigs st) t tr; threads := threads st; log := log st |} in
+                        trigs := upd (trigs st) t tr; threads := threads st; log := log st; wlk := wlk st |} in
           Some (emit st3 [GReg s t; OSubInc 1], after, [(TSt s, [IYield PExtHook; IHookS s t])])
         end
 
@@ -424,7 +456,11 @@ Section Exec.
         let (st1, r) := detach_many (st_flags st true (rctx st)) (map snd (reg st)) in
         ret (emit (st_byid (st_reg st1 []) []) (dec_obs r)) (after_remove r)
 
-    | IClose s, XNone => ret (st_log (st_sub st s (sub_set_closed (subs st s))) [OClosed s]) []
+    (* closeSubs / done(): close(completed_s) under writeMu -- waits for a writer region in progress *)
+    | ICloseLoop l, XPick s =>
+      if negb (mem s l) then None
+      else if wheld st s then None
+      else ret (st_log (st_sub st s (sub_set_closed (subs st s))) [OClosed s]) (map ICloseLoop (closel (rem s l)))
     | ICancel t, XNone => ret (st_log (st_trg st t (trg_set_cancelled (trigs st t))) [OCancel t]) []
 
     (* hook runner of a joiner *)
@@ -440,9 +476,13 @@ Section Exec.
     | IStart s t, XFail =>
       ret (st_log (st_trg st t (trg_inc_started (trigs st t))) [OStart t (t_key (trigs st t))]) [IFailSnap t]
     | IFailSnap t, XNone =>
-      ret (st_log st [GEnd t]) (map IWriteErr (t_subs (trigs st t)) ++ [IYield PDtuR; IDoneR t])
+      ret (st_log st [GEnd t]) (errloop (t_subs (trigs st t)) ++ [IYield PDtuR; IDoneR t])
+    | IErrLoop l, XPick s =>
+      if negb (mem s l) then None else ret st (IWriteErr s :: errloop (rem s l))
     | IWriteErr s, XNone =>
-      if s_removed (subs st s) then ret st [] else ret (st_log st [OW s CWriteError]) []
+      if wheld st s then None
+      else if s_removed (subs st s) then ret st []
+      else ret (wenter st s CWriteError) (wcont s CWriteError None false)
 
     (* markTriggerInitialized *)
     | IInit t, XNone =>
@@ -484,7 +524,7 @@ Section Exec.
     | IUpdLookup t e, XNone => if is_reg st t then ret st [IUpdFilter t e] else ret st []
     | IUpdFilter t e, XNone =>
       let (p, f) := eval_filter st e (t_subs (trigs st t)) in
-      ret (st_log st [GAccept t e p]) (map IWriteErr f ++ [ISpawn t e p])
+      ret (st_log st [GAccept t e p]) (errloop f ++ [ISpawn t e p])
     | ISpawn t e l, XNone =>
       let kids := filter (fun s => negb (s_removed (subs st s))) l in
       let gone := filter (fun s => s_removed (subs st s)) l in
@@ -510,11 +550,12 @@ Section Exec.
     | IKidLoad t s e il, XNone =>
       if ev_bad e then ret st [IWriteErr s] else ret st [IYield PW; IKidWrite t s e il]
     | IKidWrite t s e il, XNone =>
-      if s_removed (subs st s) then ret (st_log st [GMissed s e]) []
+      if wheld st s then None
+      else if s_removed (subs st s) then ret (st_log st [GMissed s e]) []
       else match wresf s e with
-           | WOk => ret (emit st [OW s (CWrite e); OW s CFlush]) []
-           | WFlushErr => ret (emit st [OW s (CWrite e); OW s CFlushFail]) (unsub_prog s)
-           | WWriteErr => ret (emit st [OW s (CWriteFail e); OW s CWriteError]) []
+           | WOk => ret (wenter st s (CWrite e)) (wcont s (CWrite e) (Some NFlush) false)
+           | WFlushErr => ret (wenter st s (CWrite e)) (wcont s (CWrite e) (Some NFlushFail) true)
+           | WWriteErr => ret (wenter st s (CWriteFail e)) (wcont s (CWriteFail e) (Some NWriteError) false)
            end
     | IKidDone t s, XNone => ret (st_trg st t (trg_set_wg (trigs st t) (rem s (t_wg (trigs st t))))) []
 
@@ -531,8 +572,9 @@ Section Exec.
       else if s_removed (subs st s) then ret st (celoop c (rem s l))
       else ret st ([IYield (cey c); ICEWrite s c] ++ celoop c (rem s l))
     | ICEWrite s c, XNone =>
-      if fix_a v && s_removed (subs st s) then ret st []
-      else ret (st_log st [OW s (cecall c)]) []     (* historical: no re-test under writeMu *)
+      if wheld st s then None
+      else if fix_a v && s_removed (subs st s) then ret st []
+      else ret (wenter st s (cecall c)) (wcont s (cecall c) None false)     (* historical: no re-test under writeMu *)
 
     (* heartbeat loop *)
     | IHbIds recent, XNone => ret st (hbtrigs (map fst (reg st)) recent)
@@ -546,12 +588,21 @@ Section Exec.
       ret st (hbsubs (filter (fun s => s_hb (subs st s) && negb (s_removed (subs st s)) && negb (mem s recent))
                              (t_subs (trigs st t))))
     | IHbSubs l, XPick s =>
-      if negb (mem s l) then None else ret st (IHbSend s :: hbsubs (rem s l))
+      if negb (mem s l) then None else ret st (IHbTest s :: hbsubs (rem s l))
+    | IHbTest s, XNone =>
+      if rctx st || s_ctxc (subs st s) then ret st [] else ret st [IHbSend s]
     | IHbSend s, XNone =>
-      if rctx st || s_ctxc (subs st s) then ret st []
+      if wheld st s then None
       else if s_removed (subs st s) then ret st []
-      else if hbfail s then ret (st_log st [OW s CHeartbeatFail]) (unsub_prog s)
-      else ret (st_log st [OW s CHeartbeat]) []
+      else if hbfail s then ret (wenter st s CHeartbeatFail) (wcont s CHeartbeatFail None true)
+      else ret (wenter st s CHeartbeat) (wcont s CHeartbeat None false)
+
+    (* inside a writeMu region: the call in progress returns; next call of the region, or unlock *)
+    | IWCont s c more u, XNone =>
+      match more with
+      | None => ret (st_log (st_wl st (rem s (wlk st))) [OWE s c]) (if u then unsub_prog s else [])
+      | Some n => ret (emit st [OWE s c; OW s (wn_call n)]) (wcont s (wn_call n) None u)
+      end
 
     | _, _ => None
     end.
